@@ -214,7 +214,7 @@ def apply_rws(text, rws, notes, strict):
         f = re.M
         if 's' in flags:
             f |= re.S
-        new, n = re.subn(pat, repl, text, flags=f)
+        new, n = re.subn(pat, repl, text, count=1 if '1' in flags else 0, flags=f)
         if n == 0:
             if '?' in flags:
                 continue
